@@ -103,7 +103,7 @@ Fixpoint rel_path (p : list bytes) : bool :=
 Definition simple_q (q : option bytes) : bool :=
   match q with
   | None => true
-  | Some x => match x with [] => false | _ => forallb (fun c => is_alnum c || Ascii.eqb c "=") x end
+  | Some x => match x with [] => false | _ => forallb (fun c => is_alnum c || Ascii.eqb c "=" || Ascii.eqb c "&") x end
   end.
 Definition simple_f (f : option bytes) : bool :=
   match f with None => true | Some x => forallb is_alnum x end.
